@@ -15,7 +15,9 @@ from vlib import Ob, run_all, REPO, VERIF, run, set_prepare
 
 MIRDUMP_CC = ["gcc", "-O1", "-w", "-DMIR_DIRECT_DISPATCH", "-I" + REPO]
 TOOLS = os.path.join(VERIF, "tools")
-GEN_LEVELS = {"quick": [2, 0], "thorough": [0, 1, 2, 3]}
+GEN_LEVELS = {"quick": [2, 0, 1, 3], "thorough": [2, 0, 1, 3]}
+# quick tier: -O1 and -O3 only for the cheap one-insn cases of these groups (the thorough tier runs every case at every level)
+QUICK_13_GROUPS = ("int", "mem", "branch", "ovf")
 SIG_CODE = {"i64": 1, "f": 2, "d": 3, "ld": 4}
 DEFERRED = []
 
@@ -104,8 +106,10 @@ def gen_obs(tier, scratch, cases):
     for level in levels:
         lifted = os.path.join(scratch, "c02_O%d.c" % level)
         for c in cases:
-            if c.get("gen_only") and level < 2 and tier != "thorough":
+            if c.get("gen_only") and level != 2 and tier != "thorough":
                 continue  # constant folding is an -O2/-O3 transformation: quick tier runs these at -O2 only
+            if tier != "thorough" and level in (1, 3) and (c["group"] not in QUICK_13_GROUPS or gen_heavy(c)):
+                continue
             if c["name"].startswith("fp3i_"):
                 continue  # fp immediates become literal-pool data items: the gen runner maps no module data (C01 does); the link-time
                           # lowering these cases are about is shared by both engines and is decided on the interpreter leg
@@ -196,7 +200,7 @@ def prepare(tier, scratch):
 META = {
     "bounds": {"program": "one MIR instruction (plus the ret / branch scaffolding) per obligation", "operands": "all 64-bit / all float, double, x87 bit patterns",
                "immediates": "boundary grid (compile-time constants)", "memory": "64-byte buffer, index in [-2,2]",
-               "generated_code_levels": "quick: -O2 and -O0; thorough: -O0..-O3 (every case at every level)",
+               "generated_code_levels": "quick: -O2 and -O0 for every case (constant-fold family: -O2 only), plus -O1 and -O3 for the non-heavy cases of the groups int, mem, branch, ovf; thorough: -O0..-O3 (every case at every level)",
                "generated_code_entry_state": "all 16 GPRs, xmm0-15 (both halves), flags and the caller's stack words symbolic; "
                                              "arguments placed per System V from the dumped prototype; x87 stack empty"},
     "assumptions": ["undefined cases assumed away per MIR.md: division by zero, INT_MIN/-1, shift count >= width, float->int out of range",
